@@ -33,6 +33,7 @@ type Solver struct {
 	errors    int
 	timeNs    int64
 	timeoutMs int
+	rlimit    int // deterministic per-query resource limit (z3), 0 = none
 	log       io.Writer
 	lastErr   string
 	inPath    bool
@@ -130,6 +131,9 @@ func (s *Solver) start() error {
 	if s.kind != "cvc5" {
 		s.buf.WriteString("(set-option :produce-models true)\n")
 		fmt.Fprintf(&s.buf, "(set-option :timeout %d)\n", s.timeoutMs)
+		if s.rlimit > 0 {
+			fmt.Fprintf(&s.buf, "(set-option :rlimit %d)\n", s.rlimit)
+		}
 	}
 	s.buf.WriteString("(set-option :global-declarations true)\n")
 	s.buf.WriteString("(set-logic QF_BV)\n")
@@ -259,7 +263,7 @@ func (s *Solver) Check(lits []*Term, wantModel bool, nvars int) (Result, []uint6
 		s.lastErr = err.Error()
 		return Unknown, nil
 	}
-	line, err := s.readLine()
+	line, err := s.readAnswer()
 	if err != nil {
 		s.errors++
 		s.lastErr = "read: " + err.Error()
@@ -307,6 +311,24 @@ func (s *Solver) flush() error {
 	}
 	_, err := io.WriteString(s.in, str)
 	return err
+}
+
+// readAnswer reads the answer to a check-sat under a watchdog: a solver that ignores its own
+// time/resource limit (seen with z3 4.8.12 on some deeply nested queries) is killed after twice the
+// limit plus a margin; the caller sees a read error, restarts the solver and reports "unknown".
+func (s *Solver) readAnswer() (string, error) {
+	cmd := s.cmd
+	d := time.Duration(2*s.timeoutMs+5000) * time.Millisecond
+	if s.rlimit > 0 {
+		d = 8 * time.Second
+	}
+	t := time.AfterFunc(d, func() {
+		if cmd != nil && cmd.Process != nil {
+			cmd.Process.Kill()
+		}
+	})
+	defer t.Stop()
+	return s.readLine()
 }
 
 func (s *Solver) readLine() (string, error) {
